@@ -10,3 +10,24 @@ for f in sorted(glob.glob('/verif/evidence/*.json')):
     except Exception as e:
         print('INVALID',f,str(e)[:300])
 PY
+# every harness file and helper package a configuration names must exist (a configuration committed ahead of its harness
+# once left MANIFEST.json describing parts that did not exist, and one check not building)
+python3 - <<'PY'
+import glob, importlib.util, os, re, sys
+sys.path.insert(0, '/verif/tools')
+bad = 0
+for f in sorted(glob.glob('/verif/tools/checks.d/C*.py')):
+    spec = importlib.util.spec_from_file_location(os.path.basename(f)[:-3], f); m = importlib.util.module_from_spec(spec); spec.loader.exec_module(m)
+    c = m.CHECK
+    for lib in c.get('libs', []):
+        if not glob.glob('/verif/harness/zzverif/%s/*.go' % lib):
+            print('INVALID', f, 'helper package zzverif/%s does not exist' % lib); bad += 1
+    for pkg, fl in (c.get('files') or {}).items():
+        for x in fl:
+            if not os.path.exists('/verif/harness/%s/%s' % (pkg, x)):
+                print('INVALID', f, 'harness file %s/%s does not exist' % (pkg, x)); bad += 1
+    for x in set(re.findall(r'zz_verif_[a-z0-9_]+\.go', open(f).read())):
+        if not glob.glob('/verif/harness/**/' + x, recursive=True):
+            print('INVALID', f, 'text names %s, which does not exist' % x); bad += 1
+print('configurations: %d problems' % bad)
+PY
